@@ -1182,7 +1182,13 @@ Proof.
     destruct (fresh st n) eqn:Hf; cbn [negb fst snd]; [|apply inv_s_nil; assumption].
     cbn [fx_f09 fixed_tree].
     pose proof (inv_s_event_admit_pub cf st log PsPs s n H Hf) as Ha.
-    destruct (admit_pub cf st PsPs s n true) as [[st1 ok] g]. destruct ok; cbn [fst snd andb kind_of_slot net_kind] in *; exact Ha.
+    destruct (admit_pub cf st PsPs s n true) as [[st1 ok] g]. destruct ok; cbn [fst snd andb kind_of_slot net_kind] in *;
+      [destruct listen; cbn [fst snd]|]; try exact Ha.
+    (* Listen failed: the state of a refusal *)
+    pose proof (get_or_create_sess cf st s) as Hss.
+    destruct (get_or_create cf st s) as [st0 g0] eqn:E0. cbn [fst] in *.
+    destruct (inv_s_get_or_create _ _ _ _ _ _ H E0) as [H0 _].
+    apply inv_s_nil. apply inv_s_add_refused; [exact H0|]. unfold fresh in *. rewrite Hss. exact Hf.
   - (* EGone *)
     destruct (find_sess n (st_sess st)) as [x|] eqn:Ex; cbn [fst snd]; [|apply inv_s_nil; assumption].
     destruct (s_gone x) eqn:Egone; cbn [fst snd]; [apply inv_s_nil; assumption|].
